@@ -63,6 +63,85 @@ func c08Content(seed uint64, idx, size int, first byte) []byte {
 	return b
 }
 
+// c08Rel relates the content of a blob to an earlier blob of the same case, so that manifests are frequently
+// byte prefixes / extensions / same-length variants of one another (what a hand edit or a re-publish produces).
+type c08Rel struct {
+	Kind string `json:"kind"`         // fresh | prefix (first N bytes of Of) | ext (Of + N PRNG bytes) | ext-newline (Of + "\n") | flip (Of with byte N changed)
+	Of   int    `json:"of,omitempty"` // index of the related earlier blob
+	N    int    `json:"n,omitempty"`
+}
+
+// c08GenRels draws relations for blobs lo..hi-1 (blob lo stays fresh) and rewrites their sizes accordingly.
+func c08GenRels(r *kit.Rand, sizes []int, lo, hi int) []c08Rel {
+	rels := make([]c08Rel, len(sizes))
+	for i := range rels {
+		rels[i] = c08Rel{Kind: "fresh"}
+	}
+	for i := lo + 1; i < hi; i++ {
+		of := r.Range(lo, i-1)
+		switch k := r.Intn(10); {
+		case k < 3 && sizes[of] >= 2:
+			n := r.Range(1, sizes[of]-1)
+			if r.Chance(1, 3) {
+				n = sizes[of] - 1 // the old manifest minus its last byte (a trailing newline, say)
+			}
+			rels[i], sizes[i] = c08Rel{Kind: "prefix", Of: of, N: n}, n
+		case k < 5:
+			rels[i], sizes[i] = c08Rel{Kind: "ext-newline", Of: of}, sizes[of]+1
+		case k < 7:
+			n := r.Range(1, 9)
+			rels[i], sizes[i] = c08Rel{Kind: "ext", Of: of, N: n}, sizes[of]+n
+		case k < 9:
+			rels[i], sizes[i] = c08Rel{Kind: "flip", Of: of, N: r.Intn(sizes[of])}, sizes[of]
+		}
+	}
+	return rels
+}
+
+// c08BuildBlobs materialises the blobs of a case: a pure function of its arguments. Contents are pairwise
+// distinct (a related content that collides with an earlier blob is replaced by fresh bytes of the same size).
+func c08BuildBlobs(seed uint64, idxBase int, sizes []int, rels []c08Rel, perm []int) []c08Blob {
+	blobs := make([]c08Blob, len(sizes))
+	seen := map[Digest]bool{}
+	for i, n := range sizes {
+		var data []byte
+		rel := c08Rel{Kind: "fresh"}
+		if i < len(rels) {
+			rel = rels[i]
+		}
+		switch rel.Kind {
+		case "prefix":
+			data = append([]byte(nil), blobs[rel.Of].data[:rel.N]...)
+		case "ext-newline":
+			data = append(append([]byte(nil), blobs[rel.Of].data...), '\n')
+		case "ext":
+			data = append(append([]byte(nil), blobs[rel.Of].data...), kit.NewRand(seed, "C08-ext", idxBase+i).Bytes(rel.N)...)
+		case "flip":
+			data = append([]byte(nil), blobs[rel.Of].data...)
+			data[rel.N] ^= 0x33
+		}
+		for attempt := 0; data == nil || len(data) != n || seen[Digest{sha256.Sum256(data)}]; attempt++ {
+			data = c08Content(seed, idxBase+i+attempt*4099, n, byte(perm[(i+attempt*16)%256]))
+		}
+		blobs[i] = c08NewBlob(fmt.Sprintf("b%d", i), data)
+		seen[blobs[i].d] = true
+	}
+	return blobs
+}
+
+// c08ContentRelation says how the content got relates to want (for violation shapes).
+func c08ContentRelation(got, want []byte) string {
+	switch {
+	case len(got) > len(want) && bytes.HasPrefix(got, want):
+		return "returned-manifest-extends-linked-one"
+	case len(got) < len(want) && bytes.HasPrefix(want, got):
+		return "returned-manifest-is-prefix-of-linked-one"
+	case len(got) == len(want):
+		return "same-size-manifest"
+	}
+	return "other"
+}
+
 var errC08Source = errors.New("c08: injected source error")
 
 // c08Src describes how a source reader (mis)behaves relative to the blob it claims to deliver.
@@ -318,7 +397,7 @@ func c08PanicSite() string {
 // workload "seq": fault sequences against the sequential specification
 
 type c08SeqOp struct {
-	Op   string  `json:"op"` // put import get link unlink resolve
+	Op   string  `json:"op"` // put import get link unlink resolve edit (manifest file rewritten by hand)
 	Blob int     `json:"blob,omitempty"`
 	Name string  `json:"name,omitempty"`
 	Src  *c08Src `json:"src,omitempty"`
@@ -327,6 +406,7 @@ type c08SeqOp struct {
 
 type c08SeqCase struct {
 	Sizes []int      `json:"blob_sizes"`
+	Rels  []c08Rel   `json:"blob_relations,omitempty"`
 	Ops   []c08SeqOp `json:"ops"`
 	seed  uint64
 	idx   int
@@ -392,6 +472,9 @@ func c08GenSizes(r *kit.Rand, nb int, distinct bool) []int {
 func c08GenSeq(r *kit.Rand, seed uint64, idx int) c08SeqCase {
 	nb := r.Range(3, 5)
 	cs := c08SeqCase{Sizes: c08GenSizes(r, nb, r.Chance(1, 3)), seed: seed, idx: idx}
+	if r.Chance(1, 2) {
+		cs.Rels = c08GenRels(r, cs.Sizes, 0, nb)
+	}
 	names := []string{c08GenName(r), c08GenName(r)}
 	nops := r.Range(6, 22)
 	for i := 0; i < nops; i++ {
@@ -429,6 +512,8 @@ func c08GenSeq(r *kit.Rand, seed uint64, idx int) c08SeqCase {
 			op = c08SeqOp{Op: "link", Blob: b, Name: name}
 		case k < 82:
 			op = c08SeqOp{Op: "unlink", Name: name}
+		case k < 86:
+			op = c08SeqOp{Op: "edit", Blob: b, Name: name}
 		default:
 			op = c08SeqOp{Op: "resolve", Name: name}
 		}
@@ -463,10 +548,7 @@ func c08RunSeq(cs *c08SeqCase, r *kit.Rand, dir string) (out c08Out) {
 		return
 	}
 	perm := r.Perm(256)
-	blobs := make([]c08Blob, len(cs.Sizes))
-	for i, n := range cs.Sizes {
-		blobs[i] = c08NewBlob(fmt.Sprintf("b%d", i), c08Content(cs.seed, cs.idx*16+i, n, byte(perm[i])))
-	}
+	blobs := c08BuildBlobs(cs.seed, cs.idx*16, cs.Sizes, cs.Rels, perm)
 	byDigest := map[Digest]int{}
 	for i, b := range blobs {
 		byDigest[b.d] = i
@@ -517,9 +599,9 @@ func c08RunSeq(cs *c08SeqCase, r *kit.Rand, dir string) (out c08Out) {
 				gotLabel = "the digest of the empty string"
 			}
 			if gi, ok := byDigest[d]; ok {
-				gotLabel = blobs[gi].Label
-				if blobs[gi].n == blobs[want].n && shape == "" {
-					shape = "same-size-manifest"
+				gotLabel = fmt.Sprintf("%s (%d bytes)", blobs[gi].Label, blobs[gi].n)
+				if shape == "" {
+					shape = c08ContentRelation(blobs[gi].data, blobs[want].data)
 				}
 			}
 			if shape == "" {
@@ -648,6 +730,27 @@ func c08RunSeq(cs *c08SeqCase, r *kit.Rand, dir string) (out c08Out) {
 			if !resolveCheck(op.Name, after, "") {
 				return false
 			}
+		case "edit":
+			// a hand edit (the case Resolve's own comment describes): the manifest file of the name is
+			// rewritten outside the API; from then on these are "the bytes linked", and Resolve stores them
+			linkOps++
+			b := blobs[op.Blob]
+			file, err := c.manifestPath(op.Name)
+			if err == nil {
+				if err = os.MkdirAll(filepath.Dir(file), 0o777); err == nil {
+					err = os.WriteFile(file, b.data, 0o666)
+				}
+			}
+			if err != nil {
+				out.Inconclusive = "harness: hand edit: " + err.Error()
+				return false
+			}
+			after += fmt.Sprintf("(%q := %s)", op.Name, b.Label)
+			link[c08Fold(op.Name)] = op.Blob
+			if !resolveCheck(op.Name, after, "") {
+				return false
+			}
+			present[op.Blob] = true // resolveCheck saw it retrievable
 		case "resolve":
 			linkOps++
 			after += fmt.Sprintf("(%q)", op.Name)
